@@ -47,6 +47,7 @@ def run_stat(
         total_perfect = 0
 
     reads = {}
+    alignment_count = 0
     gaf_file = GAF(gaf_path)
     for alignment_count, mapping in enumerate(gaf_file.read_file(), 1):
         # hashed_readname = hash(mapping.query_name)
@@ -116,15 +117,20 @@ def run_stat(
 
     # avg_total_seq_identity /= len(reads)
     # avg_total_map_ratio /= len(reads)
-    avg_highest_seq_identity /= len(reads)
-    avg_highest_map_ratio /= len(reads)
+    if len(reads) > 0:
+        avg_highest_seq_identity /= len(reads)
+        avg_highest_map_ratio /= len(reads)
     print()
     print("Total alignments:", alignment_count, file=output)
     print("\tPrimary:", total_primary, file=output)
     print("\tSecondary:", total_secondary, file=output)
     print("Reads with at least one alignment:", len(reads), file=output)
     print("Total aligned bases:", str(total_aligned_bases), file=output)
-    print("Average mapping quality:", round((total_mapq / alignment_count), 1), file=output)
+    print(
+        "Average mapping quality:",
+        round((total_mapq / alignment_count), 1) if alignment_count > 0 else 0.0,
+        file=output,
+    )
     # print("Average total sequence identity:", round(avg_total_seq_identity, 2), file=output)
     print("Average highest sequence identity:", round(avg_highest_seq_identity, 3), file=output)
     # print("Average total map ratio:", round(avg_total_map_ratio,2), file=output)
